@@ -1187,6 +1187,38 @@ func ruleDispatch(c *Ctx, dv *dev, rule string, wantKey, wantAbs bool) {
 			c.Undec(rule, "anchor:device.EV_KEY_REPEAT", "-", "constant not found")
 		}
 	}
+	// an event of another type (EV_SYN, EV_REL, EV_MSC, EV_LED, EV_REP, EV_FF ...) is no key and no axis report: it reaches
+	// neither handler. The key handler takes whatever it is given for a press or a release of the key whose code equals the
+	// event's code (LED_CAPSL = REL_Y = 1 = KEY_ESC; the MSC_SCAN report that precedes every key stroke has code 4 = KEY_3).
+	{
+		n, bad := 0, ""
+		var others []int64
+		for t := int64(0); t <= 0x1f; t++ {
+			if t != evKey && t != evAbs {
+				others = append(others, t)
+			}
+		}
+		for _, t := range others {
+			for _, v := range []int64{0, 1, 2, -1} {
+				for _, p := range paths {
+					if p.End == "cut" || !consistent(p, t, v) {
+						continue
+					}
+					n++
+					for _, e := range p.Effects {
+						if e.Kind == "call" && (wantKey && e.Callee == dv.fn["handleKEYEvent"] || wantAbs && e.Callee == dv.fn["handleABSEvent"]) && bad == "" {
+							bad = fmt.Sprintf("an event of type %d (neither EV_KEY nor EV_ABS) with value %d reaches %s: a LED, scan-code, relative-motion or repeat report is taken for a key or an axis with the same code number", t, v, e.Callee.Name())
+						}
+					}
+				}
+			}
+		}
+		if n == 0 {
+			c.Undec(rule, "device.processEvent/other-event-types-reach-no-handler", pos, "no path consistent with an event of another type")
+		} else {
+			c.Check(bad == "", rule, "device.processEvent/other-event-types-reach-no-handler", pos, fmt.Sprintf("%d consistent path evaluation(s) over the %d other event types, none calls a handler", n, len(others)), bad)
+		}
+	}
 	// ProcessEvents: every received event is handed to processEvent
 	pe := dv.fn["ProcessEvents"]
 	if pe != nil {
